@@ -17,6 +17,7 @@ CHECKS = {
  "C03": ("exploration", "reference-model monitor: grouped-leaf reducer over generated layouts x 10 reducers x axes x mask/keepdims; ASan build", "held on the executions produced; non-innermost axes on ragged data are a recorded known finding (F10/F10d)", "4 C03"),
  "C08": ("exploration", "reference-model monitor: concatenation law, numpy.concatenate promotion, numpy.astype casts, simplify value-preservation; ASan build", "held on the executions produced (lane L: mergemany/simplify/numbers_to_type)", "4 C08"),
  "C10": ("exploration", "metamorphic + reference monitor: field projection commuted through positional slices, getitem_field(s) vs Slice items, setitem_field read-back; ASan build", "held on the executions produced (lane L)", "4 C10"),
+ "C14": ("exploration", "history monitor: generated well-/ill-nested ArrayBuilder command histories fed to the C++ API and to the extern-C entry points, value compared with the appended values after the documented unification; snapshot-immutability monitor re-reading structural dumps; forced buffer growth; ASan build", "held on the executions produced (lane L: ArrayBuilder; from_iter walk re-implemented in the harness; LayoutBuilder not yet driven)", "4 C14"),
  "C17": ("exploration", "runtime monitor: library type strings vs the layout model's own type derivation, Content vs Form queries, Form JSON round trips, element/range type consistency; ASan build", "held on the executions produced (lane L)", "4 C17"),
  "C13": ("exploration", "differential runtime monitor: every compiled kernel specialisation vs its YAML Python definition run on index-recording typed lists; malloc-exact extents under ASan, canaries on the plain build, cross-specialisation comparison", "held on the accepted argument tuples of one run (all 690 specialisations reached)", "4 C13"),
 }
